@@ -433,6 +433,12 @@ func isBuiltin(call *ssa.Call, name string) bool {
 // ruleC03c: shape of the line-feed splitter.
 func ruleC03c(c *Ctx) []*report.Result {
 	r := report.NewResult("C03.c", "the line-feed branch of the escape scanner, on every path: the pending data input[k:i] is appended to the output; the elision test looks at that very output value for the start marker and either truncates it by len(start) or appends the end marker; then the maximal run of line feeds input[i:j] is appended, then the start marker; k becomes j and i becomes j-1", 8)
+	if sym := c.symScan(); sym.decided && sym.lineSteps > 0 {
+		r.Note("the line-feed branch is decided path-wise by C10.sym (line step); the shape conditions are not needed")
+		r.Floor = 0
+		r.Ok("subsumed by C10.sym")
+		return []*report.Result{r}
+	}
 	mf := c.markerFacts(r)
 	s := c.findScanner(r)
 	if s == nil {
@@ -620,12 +626,8 @@ func ruleC03d(c *Ctx) []*report.Result {
 						return
 					}
 					for _, i2 := range bb.Instrs {
-						if cl, ok := i2.(*ssa.Call); ok && (isBuiltin(cl, "copy") || isBuiltin(cl, "append")) && len(cl.Common().Args) == 2 {
-							a := cl.Common().Args[1]
-							if cst, ok := a.(*ssa.Const); ok && cst.Value != nil && cst.Value.Kind() == constant.String && constant.StringVal(cst.Value) == other {
-								okOther = true
-							}
-							if _, v, ok := c.markerGlobal(a, mf); ok && v == other {
+						if cl, ok := i2.(*ssa.Call); ok {
+							if v, ok := c.writtenConstant(cl, mf); ok && v == other {
 								okOther = true
 							}
 						}
@@ -783,7 +785,8 @@ func (cowHooks) EvalValue(c *engine.Ctx, v ssa.Value, ops []engine.AbsVal) (engi
 }
 
 func (cowHooks) OnCall(c *engine.Ctx, instr ssa.Instruction, callee *ssa.Function, args []engine.AbsVal) (bool, engine.AbsVal) {
-	pure := map[string]bool{"bytes.HasSuffix": true, "bytes.Equal": true, "unicode/utf8.DecodeLastRune": true}
+	pure := map[string]bool{"bytes.HasSuffix": true, "bytes.HasPrefix": true, "bytes.Equal": true, "bytes.Index": true, "bytes.IndexByte": true, "bytes.IndexRune": true, "bytes.IndexAny": true, "bytes.LastIndex": true, "bytes.LastIndexByte": true, "bytes.Contains": true, "bytes.ContainsRune": true, "bytes.ContainsAny": true, "bytes.Compare": true, "bytes.Count": true,
+		"unicode/utf8.DecodeLastRune": true, "unicode/utf8.DecodeRune": true, "unicode/utf8.Valid": true, "unicode/utf8.RuneCount": true, "unicode/utf8.FullRune": true}
 	// a helper of the module is interpreted like the routine itself (its
 	// stores and appends are seen by the hooks above)
 	if c.It.Cfg.InModule(callee) && callee.Blocks != nil {
@@ -875,7 +878,7 @@ func ruleC10g(c *Ctx) []*report.Result {
 					okOpen := false
 					for _, prev := range b.Instrs[:i] {
 						if call, ok := prev.(*ssa.Call); ok {
-							if g := call.Common().StaticCallee(); g != nil && writesConst(g, c.ABuf().Markers.Start) {
+							if g := call.Common().StaticCallee(); g != nil && c.writesConst(g, c.ABuf().Markers.Start) {
 								okOpen = true
 							}
 						}
@@ -888,18 +891,59 @@ func ruleC10g(c *Ctx) []*report.Result {
 	return []*report.Result{r}
 }
 
-// writesConst: fn copies/appends the given string constant.
-func writesConst(fn *ssa.Function, s string) bool {
+// writesConst: fn copies/appends the given string constant, itself or
+// through a helper to which it hands the constant.
+func (c *Ctx) writesConst(fn *ssa.Function, s string) bool {
+	mf := c.markerFacts(report.NewResult("x", "", 0))
 	for _, b := range fn.Blocks {
 		for _, ins := range b.Instrs {
-			if call, ok := ins.(*ssa.Call); ok && (isBuiltin(call, "copy") || isBuiltin(call, "append")) {
-				for _, a := range call.Common().Args {
-					if cst, ok := a.(*ssa.Const); ok && cst.Value != nil && cst.Value.Kind() == constant.String && constant.StringVal(cst.Value) == s {
-						return true
-					}
+			if call, ok := ins.(*ssa.Call); ok {
+				if v, ok := c.writtenConstant(call, mf); ok && v == s {
+					return true
 				}
 			}
 		}
 	}
 	return false
+}
+
+// writtenConstant: the string constant a call copies or appends — directly
+// (copy/append of a constant or of a marker variable) or as a module helper
+// that copies/appends the parameter it receives the constant in.
+func (c *Ctx) writtenConstant(call *ssa.Call, mf *markerFacts) (string, bool) {
+	constOf := func(a ssa.Value) (string, bool) {
+		a = stripConvAll(a)
+		if cst, ok := a.(*ssa.Const); ok && cst.Value != nil && cst.Value.Kind() == constant.String {
+			return constant.StringVal(cst.Value), true
+		}
+		if _, v, ok := c.markerGlobal(a, mf); ok {
+			return v, true
+		}
+		return "", false
+	}
+	if (isBuiltin(call, "copy") || isBuiltin(call, "append")) && len(call.Common().Args) == 2 {
+		return constOf(call.Common().Args[1])
+	}
+	g := call.Common().StaticCallee()
+	if g == nil || !c.P.InModule(g) || g.Blocks == nil {
+		return "", false
+	}
+	for i, a := range call.Common().Args {
+		v, ok := constOf(a)
+		if !ok || i >= len(g.Params) {
+			continue
+		}
+		// does g copy/append that parameter?
+		p := g.Params[i]
+		for _, b := range g.Blocks {
+			for _, ins := range b.Instrs {
+				if cl, ok := ins.(*ssa.Call); ok && (isBuiltin(cl, "copy") || isBuiltin(cl, "append")) && len(cl.Common().Args) == 2 {
+					if stripConvAll(cl.Common().Args[1]) == ssa.Value(p) {
+						return v, true
+					}
+				}
+			}
+		}
+	}
+	return "", false
 }
